@@ -47,25 +47,39 @@ def resolve_joined(prog, g):
     short circuit its value does not matter to the joined condition.)  Calls of pure time comparators stay: they are
     evaluated from their arguments through the comparator's table wherever they stand."""
     keep = set() if root_is_comparator(prog, g) else {f.name for f in comparators(prog) if f.params[0].get('record') == 'timespec'}
-    insts = {}
+    insts, by_chain = {}, {}
     for e in g.events():
         if e['ev'] == 'enter' and e.get('loc') and e.get('inst') is not None:
             insts.setdefault(e['loc'], set()).add(e['inst'])
+            by_chain.setdefault((e['loc'], _chain_key(e)), set()).add(e['inst'])
 
-    def r(n):
-        if n.get('k') == 'call' and n.get('callee') and n['callee'] not in keep and len(insts.get(n.get('loc'), ())) == 1:
-            return {'k': 'load', 'e': {'k': 'var', 'name': '$ret%d' % next(iter(insts[n['loc']])), 'vk': 'local', 'type': n.get('type', 'int')}}
-        return None
+    def resolver(chain):
+        # a helper inlined at several places (a header function) has one instance per enclosing instance: the call
+        # spelled in an expression of an event belongs to the instance entered from the same enclosing chain
+        def r(n):
+            if n.get('k') == 'call' and n.get('callee') and n['callee'] not in keep:
+                cand = insts.get(n.get('loc'), ())
+                if len(cand) != 1 and chain is not None:
+                    cand = by_chain.get((n.get('loc'), chain), ())
+                if len(cand) == 1:
+                    return {'k': 'load', 'e': {'k': 'var', 'name': '$ret%d' % next(iter(cand)), 'vk': 'local', 'type': n.get('type', 'int')}}
+            return None
+        return r
     for blk in g.blocks.values():
         c = blk.term.get('cond') if blk.term else None
         if c is not None and any(x.get('k') == 'call' and x.get('callee') and x.get('loc') in insts for x in walk(c)):
-            blk.term = dict(blk.term, cond=subst(c, r))
+            chains = {_chain_key(e) for e in blk.events if 'chain' in e}
+            blk.term = dict(blk.term, cond=subst(c, resolver(next(iter(chains)) if len(chains) == 1 else None)))
         for e in blk.events:
             for k in ('rhs', 'value', 'init'):
                 if isinstance(e.get(k), dict) and any(x.get('k') == 'call' and x.get('callee') and x.get('loc') in insts for x in walk(e[k])):
                     if not (strip(e[k]).get('k') == 'call'):          # the call statement / plain `x = f()` of the instance itself stays
-                        e[k] = subst(e[k], r)
+                        e[k] = subst(e[k], resolver(_chain_key(e) if 'chain' in e else None))
     return g
+
+
+def _chain_key(e):
+    return tuple(tuple(x) if isinstance(x, (list, tuple)) else x for x in (e.get('chain') or ()))
 
 
 _EXPR_KEYS = ('lhs', 'rhs', 'value', 'init', 'args', 'fnexpr')
@@ -269,6 +283,62 @@ def _through(x, ptrs):
             return ptrs[n['e']['name']]
         return None
     return _simp(subst(x, r))
+
+
+def object_addr(x):
+    """x is the address of an object that exists whatever the pointers hold: `&V`, `&V.f.g` (V a variable, no pointer is
+    followed on the way).  Such a value is never NULL."""
+    x = strip(x)
+    if not (isinstance(x, dict) and x.get('k') == 'addr'):
+        return False
+    z = x.get('e')
+    while isinstance(z, dict) and z.get('k') == 'member' and not z.get('arrow'):
+        z = z.get('base')
+    return isinstance(z, dict) and z.get('k') == 'var'
+
+
+_ONE = {'k': 'int', 'v': 1}
+
+
+def nonnull_facts(x, truth=False):
+    """rewrite the places of x where only the *nullness* of a pointer value matters -- operand of a comparison with
+    NULL / 0, of `!`, `&&`, `||`, the test of `?:`, and x itself when truth is set (x is a branch condition) -- when the
+    pointer is the address of an existing object (object_addr): it counts as 1 there.  `p = helper(&local, ...)` where the
+    helper answers "the buffer I filled, or NULL" is decided by this once the helper's result is known to be &local."""
+    if isinstance(x, list):
+        return [nonnull_facts(y) for y in x]
+    if not isinstance(x, dict):
+        return x
+    k = x.get('k')
+    if truth and object_addr(x) and not any(w.get('k') == 'cast' and '*' not in str(w.get('to') or '*') for w in _wrappers(x)):
+        return dict(_ONE)
+    if k in ('load', 'stmtexpr', 'cast') and 'e' in x:
+        keep = truth and (k != 'cast' or '*' in str(x.get('to') or '*'))
+        return dict(x, e=nonnull_facts(x['e'], keep))
+    if k == 'un' and x.get('op') == '!':
+        return dict(x, e=nonnull_facts(x['e'], True))
+    if k == 'bin' and x.get('op') in ('&&', '||'):
+        return dict(x, l=nonnull_facts(x['l'], True), r=nonnull_facts(x['r'], True))
+    if k == 'bin' and x.get('op') in ('==', '!='):
+        l, r = x['l'], x['r']
+        if _is_zero(r) and not _is_zero(l):
+            return dict(x, l=nonnull_facts(l, True), r=r)
+        if _is_zero(l) and not _is_zero(r):
+            return dict(x, l=l, r=nonnull_facts(r, True))
+    if k == 'cond':
+        return dict(x, c=nonnull_facts(x['c'], True), a=nonnull_facts(x['a'], truth), b=nonnull_facts(x['b'], truth))
+    return {kk: (nonnull_facts(v) if isinstance(v, (dict, list)) else v) for kk, v in x.items()}
+
+
+def _wrappers(x):
+    while isinstance(x, dict) and x.get('k') in ('load', 'cast', 'stmtexpr') and 'e' in x:
+        yield x
+        x = x['e']
+
+
+def _is_zero(x):
+    x = strip(x)
+    return isinstance(x, dict) and (x.get('k') == 'null' or (x.get('k') == 'int' and x.get('v') == 0))
 
 
 def _boolish(r):
@@ -1002,8 +1072,8 @@ def explore(g, orders=None, bools=None, ints=None, on_event=None, start=None, ma
         path = dict(end=None, ret=None, trace=trace, env=env, mem=mem, assumed=assumed, ptrs=ptrs)
         path.update(extras)
 
-        def ev_(x):
-            return interp.evaluate(_through(x, path['ptrs']), asg, env)
+        def ev_(x, truth=False):
+            return interp.evaluate(nonnull_facts(_through(x, path['ptrs']), truth), asg, env)
         path['eval'] = ev_
         while True:
             visits[b] = visits.get(b, 0) + 1
@@ -1036,6 +1106,11 @@ def explore(g, orders=None, bools=None, ints=None, on_event=None, start=None, ma
                                 ptrs.pop(k_)
                             r = _through(e['rhs'], ptrs) if e.get('op') == '=' and 'rhs' in e else None
                             rs = strip(r) if r is not None else None
+                            while isinstance(rs, dict) and rs.get('k') == 'cond':       # `p = c ? &buf : NULL` with c decided on this path
+                                try:
+                                    rs = strip(rs['a'] if ev_(rs['c'], True) else rs['b'])
+                                except interp.Undecided:
+                                    break
                             if isinstance(rs, dict) and rs.get('k') == 'addr':
                                 ptrs[nm] = rs
                         tgt, key = (env, l['name']) if isvar else (mem, canon(_through(e['lhs'], ptrs)))
@@ -1080,7 +1155,7 @@ def explore(g, orders=None, bools=None, ints=None, on_event=None, start=None, ma
             decided = None
             if c is not None and len(succ) == 2 and blk.term.get('cls') not in ('SwitchStmt', 'MethodDispatch'):
                 try:
-                    decided = 0 if ev_(c) else 1
+                    decided = 0 if ev_(c, True) else 1
                 except interp.Undecided:
                     decided = None
                 if decided is None and decide is not None:
@@ -1132,8 +1207,8 @@ def explore(g, orders=None, bools=None, ints=None, on_event=None, start=None, ma
             path = dict(end=None, ret=None, trace=trace, env=env, mem=mem, assumed=assumed, ptrs=ptrs)
             path.update(extras)
 
-            def ev_(x, path=path, asg=asg, env=env):
-                return interp.evaluate(_through(x, path['ptrs']), asg, env)
+            def ev_(x, truth=False, path=path, asg=asg, env=env):
+                return interp.evaluate(nonnull_facts(_through(x, path['ptrs']), truth), asg, env)
             path['eval'] = ev_
         out.append(path)
     return out
